@@ -13,10 +13,11 @@
     [bondG] (reactant-side bond of an ITS), [dH] / [dQ] (product-minus-reactant hydrogen count / charge of an ITS
     node), [sumZ] (sum over nodes), [balancedb], [count_el], [total_hc], [total_charge], [elem_count] (atoms of an
     element plus, for hydrogen, the implicit hydrogens). *)
-From Coq Require Import List NArith ZArith Bool.
+From Coq Require Import List NArith ZArith Bool Permutation.
 From SK Require Import lib.Tok lib.LGraph model.C03_Model proof.C03_Spec proof.C03_Proof proof.C03_Glue proof.C03_Backward
-                       proof.C03_ExplicitH proof.C03_ExplicitShape proof.C03_Expand
-                       proof.C03_Link.
+                       proof.C03_ExplicitH proof.C03_ExplicitShape proof.C03_ExplicitTotal proof.C03_Expand
+                       proof.C03_Link proof.C03_Default proof.C03_Iso
+                       proof.C03_Skeleton.
 Import ListNotations.
 Local Open Scope Z_scope.
 
@@ -81,6 +82,16 @@ Theorem C03_changes_exact : forall (host : hostg) (rc : its) (m : mapping) (T : 
      adj T a b = option_map lift (adj host a b)).
 Proof. exact changes_exact. Qed.
 Print Assumptions C03_changes_exact.
+
+(** the same as ONE equation between finite sets (proof/C03_Spec.v: [changed_bonds], [image_changed_bonds]): the changed
+    bonds of the result, each as (unordered atom pair, order change), are — up to order, without repetition — the
+    images under the match of the rule's changed bonds.  With [C03_changed_atoms] (end atoms carry the rule atoms'
+    element and hydrogen change) this is the isomorphism of labelled changed-bond graphs of clause (c). *)
+Theorem C03_changed_bonds_iso : forall (host : hostg) (rc : its) (m : mapping) (T : its),
+  wf_hostb host = true -> wf_rcb rc = true -> match_rcb host rc m = true -> glue host rc m = Some T ->
+  Permutation (changed_bonds T) (image_changed_bonds m rc).
+Proof. exact changed_bonds_perm. Qed.
+Print Assumptions C03_changed_bonds_iso.
 
 (** no other bond of the substrate is altered (the last clause on its own) *)
 Theorem C03_unchanged_elsewhere : forall (host : hostg) (rc : its) (m : mapping) (T : its),
@@ -165,6 +176,41 @@ Theorem C03_synrule_implicit : forall tpl : its, nodupb (node_ids tpl) = true ->
 Proof. exact synrule_implicit. Qed.
 Print Assumptions C03_synrule_implicit.
 
+(** default mode (SynRule.__init__ with implicit_h=True), template WITHOUT explicit hydrogen atoms: nothing is
+    stripped and the rule handed to the reactor is [default_rc tpl] — the template's bonds, elements, aromaticity,
+    charges and neighbors with every hydrogen count set to 0 on both sides, so it changes no hydrogen count (hydrogen
+    changes must be written with explicit H atoms in this mode).  For templates WITH explicit hydrogens the
+    three-step _strip_explicit_h is modelled and compared on every case but not covered by a theorem. *)
+Theorem C03_synrule_default_noH : forall tpl : its,
+  nodupb (node_ids tpl) = true ->
+  forallb (fun p => negb (N.eqb (a_el (iG (snd p))) EL_H) && negb (N.eqb (a_el (iH (snd p))) EL_H)) (gnodes tpl) = true ->
+  exists (l r : molg), synrule tpl true = Some (default_rc tpl, l, r).
+Proof. exact synrule_default_noH. Qed.
+Print Assumptions C03_synrule_default_noH.
+
+Theorem C03_default_rule_facts : forall tpl : its,
+  gedges (default_rc tpl) = gedges tpl /\ node_ids (default_rc tpl) = node_ids tpl /\
+  sumZ dH (default_rc tpl) = 0 /\ sumZ dQ (default_rc tpl) = sumZ dQ tpl /\
+  (forall (k : N) (a : inode), In (k, a) (gnodes (default_rc tpl)) -> a_hc (iG a) = 0 /\ a_hc (iH a) = 0).
+Proof. exact default_rc_facts. Qed.
+Print Assumptions C03_default_rule_facts.
+
+(** default mode, ANY template (explicit hydrogens allowed) — PARTIAL.  Whatever the three steps of _strip_explicit_h
+    decide, the rule handed to the reactor is the template with some explicit HYDROGEN atoms removed: the remaining
+    atoms in the same order with the same element, aromaticity, charge and neighbors on both sides (only the hydrogen
+    counts, hcount and h_pairs are rewritten) and exactly the template's bonds that touch no removed atom, unchanged.
+    So every heavy atom, and every (changed or unchanged) bond between heavy atoms, of the rule is the template's.
+    Missing for the full statement: WHICH hydrogens are removed and that the rewritten hydrogen counts / h_pairs
+    account for exactly the removed ones (compared on every case by the correspondence: rc, left, right). *)
+Theorem C03_synrule_default_skeleton : forall (tpl rc : its) (l r : molg),
+  nodupb (node_ids tpl) = true -> synrule tpl true = Some (rc, l, r) ->
+  exists removed : list N,
+    (forall h : N, In h removed -> is_H_i tpl h = true) /\
+    Forall2 same_core (gnodes rc) (filter (keepn removed) (gnodes tpl)) /\
+    gedges rc = filter (keepe removed) (gedges tpl).
+Proof. exact synrule_default_skeleton. Qed.
+Print Assumptions C03_synrule_default_skeleton.
+
 (** ** the explicit-hydrogen stage (_explicit_h after gluing) — PARTIAL
 
     Full statement wanted: (a)-(c) for the graph returned by _explicit_h on the hydrogen-expanded substrate, i.e.
@@ -207,6 +253,13 @@ Theorem C03_explicitH_shape : forall (T T' : its) (ms : list (N * N)),
        a_hc (iH a') = a_hc (iH a) - occurrences n (map snd ms)).
 Proof. exact explicit_h_shape. Qed.
 Print Assumptions C03_explicitH_shape.
+
+(** when _explicit_h raises (the model's [None]; the oracle's clause explicit-h-crash; it aborts the whole its_list):
+    exactly when some connected component of the h_pairs relation has more hydrogens to give (atoms whose reactant
+    count exceeds the product count) than to take ([pairs_okb], proof/C03_Spec.v) *)
+Theorem C03_explicitH_crash_iff : forall T : its, explicit_h T = None <-> pairs_okb T = false.
+Proof. exact explicit_h_crash_iff. Qed.
+Print Assumptions C03_explicitH_crash_iff.
 
 (** gluing followed by _explicit_h: a balanced rule still yields a balanced reaction whose reactant side has the
     substrate's element counts and, between substrate atoms, exactly the substrate's bonds *)
